@@ -194,3 +194,14 @@ def word_texts(limit: int | None = None):
         if len(w) <= 10:
             out.append(("ab " + w + " 9")[:16])
     return out if limit is None else out[:limit]
+
+
+def edge_texts():
+    """Identification strings with every ASCII character (0x00..0x7F) alone, first, last, doubled at the end and in the
+    middle: padding, terminator and white-space characters are where 'verbatim' goes wrong."""
+    out = []
+    for c in range(0x80):
+        ch = chr(c)
+        out += [ch, ch + "AB", "AB" + ch, "AB" + ch + ch, "A" + ch + "B"]
+    out += ["7359992892" + "\0" * 6, " " * 16, "\0" * 16, "\r\n", "AB\r\n", "\t6525\t"]
+    return list(dict.fromkeys(out))
